@@ -374,7 +374,7 @@ def c16_batches(tier):
             # the other scenarios under the sanitizers: gates, transport, faults, low-level clients, concurrency
             bs.append(B("gates-%s-%s" % (be, var), "gates", be, var, (30 if q else 600) * slow, spec="swarm:12", specpool=4, nkeys=1, stats=0, weight=20 if q else 200, max_procs=2))
             bs.append(B("io-%s-%s" % (be, var), "io", be, var, (40 if q else 800) * slow, spec="swarm:6", specpool=2, nkeys=1, weight=15 if q else 150, max_procs=2))
-            bs.append(B("iofault-%s-%s" % (be, var), "iofault", be, var, (20 if q else 400) * slow, spec="swarm:4", specpool=2, fmode="mix", attempts=30, weight=15 if q else 150,
+            bs.append(B("iofault-%s-%s" % (be, var), "iofault", be, var, (20 if q else 400) * slow, spec="swarm:4", specpool=2, fmode="mix", attempts=30, fork=1, weight=15 if q else 150,
                         max_procs=2))
             bs.append(B("low-%s-%s" % (be, var), "low", be, var, (16 if q else 400) * slow, spec="swarm:8", specpool=2, nkeys=1, nops=5, weight=20 if q else 200, max_procs=2,
                         **({"xBmax": 10} if extra else {})))
@@ -425,24 +425,24 @@ def c18_batches(tier):
         big = chunks > 3
         be = "spqlios-fma"
         bs.append(B("sweep-%s" % kind, "iofault", be, "optim", chunks, spec=TINY, kind=kind, fmode="sweep", chunk=2048, ctxseed=11, oseed=5,
-                    n=5, N=8, k=1, l=2, Bgbit=4, weight=60 if big else 4, det_count=1))
+                    n=5, N=8, k=1, l=2, Bgbit=4, fork=1, weight=60 if big else 4, det_count=1))
     if not q:
         for be in BACKENDS[1:]:
             for kind in ("CloudKeySet", "SecretKeySet", "LweKeySwitchKey", "LweKey", "TGswSample"):
                 bs.append(B("sweep-%s-%s" % (kind, be), "iofault", be, "optim", SWEEP_KINDS[kind], spec=TINY, kind=kind, fmode="sweep", chunk=2048,
-                            ctxseed=12, oseed=6, n=7, N=4, k=2, l=3, Bgbit=2, weight=60, det_count=1))
+                            ctxseed=12, oseed=6, n=7, N=4, k=2, l=3, Bgbit=2, fork=1, weight=60, det_count=1))
     # seeded mix of truncations at boundaries, corrupted titles / tags, substitutions, on every build
     for be in BACKENDS:
         for var in ("optim", "debug"):
             bs.append(B("mix-%s-%s" % (be, var), "iofault", be, var, (40 if q else 800) * (1 if var == "optim" else 0.5), spec="swarm:4", specpool=3,
-                        fmode="mix", attempts=40, weight=15 if q else 150))
+                        fmode="mix", attempts=40, fork=1, weight=15 if q else 150))
     # the same faults against sanitizer builds: an out-of-bounds access while parsing kills the worker with a report
     for be in (["spqlios-fma", "fftw"] if q else BACKENDS):
         for var in (["optim-asan"] if q else ["optim-asan", "debug-asan"]):
-            bs.append(B("mix-%s-%s" % (be, var), "iofault", be, var, 20 if q else 400, spec="swarm:4", specpool=2, fmode="mix", attempts=40, weight=25 if q else 150, max_procs=3))
+            bs.append(B("mix-%s-%s" % (be, var), "iofault", be, var, 20 if q else 400, spec="swarm:4", specpool=2, fmode="mix", attempts=40, fork=1, weight=25 if q else 150, max_procs=3))
     for spec in ("P128", "P80"):
-        bs.append(B("mix-%s" % spec, "iofault", "spqlios-fma", "optim", 2 if q else 16, spec=spec, fmode="mix", attempts=5,
-                    kind="CloudKeySet" if spec == "P128" else "SecretKeySet", weight=60 if q else 300, det_count=1, max_procs=2 if q else 8))
+        bs.append(B("mix-%s" % spec, "iofault", "spqlios-fma", "optim", 2 if q else 16, spec=spec, fmode="mix", attempts=5, fork=1,
+                    kind="CloudKeySet" if spec == "P128" else "SecretKeySet", weight=60 if q else 300, det_count=1, max_procs=2 if q else 4))
     return bs
 
 
